@@ -1,3 +1,4 @@
 import CirqVerif.Props.C18
 import CirqVerif.Props.C18Views
 import CirqVerif.Props.C05
+import CirqVerif.Props.C01
